@@ -10,8 +10,9 @@
    arrives may be dropped: DESIGN 5a).
 
    A scenario satisfies C20 iff
-     Returns      after the signal was sent, run returns (the harness waited 1 s + 4 s + 15 s): the End record
-                  finds a Run_Return; run does not panic;
+     Returns      after the signal was sent, run returns within the harness's 1 s + 4 s + 15 s, whatever the
+                  connections and handlers are doing: no Return_Timeout record (written before the harness lets
+                  blocked handlers finish), the End record finds a Run_Return; run does not panic;
      PortFree     the address can be bound again at once after run returned (Rebind = 1; no record when another
                   process took the port), and a second run on the same address comes up (no Restart_Failed);
      ServingUntil until the signal is sent the server keeps serving normally: before the signal no connect is
@@ -87,6 +88,8 @@ Step ==
             THEN Note("PortFree: the address could not be bound again right after run returned")
           ELSE IF e.ev = "Restart_Failed"
             THEN Note("PortFree: a second run on the same address did not come up")
+          ELSE IF e.ev = "Return_Timeout"
+            THEN Note("Returns: run had not returned 1 s + 4 s + 15 s after the signal (handlers still blocked, connections still open)")
           ELSE IF e.ev = "End" /\ sent /\ ~returned
             THEN Note("Returns: run did not return after the signal (waited 1 s + 4 s + 15 s)")
           ELSE bad
